@@ -352,6 +352,28 @@ impl Gen {
                 _ => json!({"op":"Extend","s":s,"items":[[self.key_absent(w, s), self.val()]],"hint":1}),
             };
         }
+        // another rare phase (the state of defect D1): the old table is still attached but retain /
+        // replace_entry_with(None) took its last element. Whole-table and capacity calls must cope with it.
+        if split && st.old_len == 0 && self.rng.gen_bool(0.6) {
+            let d = 3 - s;
+            let two = nslots == 2 && w.alive(d);
+            let free = st.main_cap.saturating_sub(st.main_len);
+            let n = free + self.rng.gen_range(0..3usize);
+            return match self.rng.gen_range(0..12) {
+                0 | 1 => json!({"op":"Reserve","s":s,"n":n}),
+                2 => json!({"op":"TryReserve","s":s,"n":n}),
+                3 => json!({"op":"ShrinkToFit","s":s}),
+                4 => json!({"op":"ShrinkTo","s":s,"n": len + self.rng.gen_range(0..3usize)}),
+                5 if two => json!({"op":"CloneFrom","s":s,"d":d}),
+                6 if two => json!({"op":"CloneFrom","s":d,"d":s}),
+                5 | 6 => json!({"op":"Clone","s":s,"d":d}),
+                7 => json!({"op":"Iter","s":s,"kind":"iter","extra":1}),
+                8 if !self.cfg.zst => json!({"op":"Probe","s":s}),
+                9 => json!({"op":"Retain","s":s,"pred": self.pred(w, s)}),
+                10 => json!({"op":"DrainFilter","s":s,"pred": self.pred(w, s),"end":"exhaust"}),
+                _ => json!({"op":"Extend","s":s,"items":[[self.key_absent(w, s), self.val()]],"hint": n}),
+            };
+        }
         // C10: "n insertions without reallocation" after with_capacity(n) / reserve(n): fill the promised room
         if std::mem::replace(&mut self.promised, false) && !self.cfg.zst && st.main_cap - st.main_len < 300 && self.rng.gen_bool(0.25) {
             return json!({"op":"Probe","s":s});
